@@ -546,3 +546,8 @@ mod tests {
         Ok(())
     }
 }
+
+// Verification hook (guarded): Kani harnesses live outside the repository.
+#[cfg(kani)]
+#[path = "/verif/kani/ip_config.rs"]
+mod verif_kani;
